@@ -87,9 +87,26 @@ def sweep(tier, seed):
             shutil.rmtree(root, ignore_errors=True)
         if len(fails) >= 8:
             break
+    # histories: a task that was DONE and later fails (or is skipped) must not be reported DONE by the next read
+    for later in (TaskStatus.FAILED, TaskStatus.SKIPPED, TaskStatus.WAITING):
+        n += 1
+        root = tempfile.mkdtemp(prefix='c14h_', dir='/var/tmp')
+        try:
+            env1 = _prepare(root, {'t': {'status': TaskStatus.DONE, 'result': 'old'}, 'u': {'status': TaskStatus.DONE, 'result': 'u1'}})
+            write_env(env1, filename=fname, fmt='pickle')
+            env2 = _prepare(root, {'t': {'status': later, 'result': 'new'}, 'u': {'status': TaskStatus.DONE, 'result': 'u2'}})
+            write_env(env2, filename=fname, fmt='pickle')
+            got = read_env(root=root, names=['t', 'u'], filename=fname, fmt='pickle')
+            gd = {k: dict(v) for k, v in got.items()}
+            if 't' in gd or gd.get('u', {}).get('result') != 'u2':
+                fails.append({'input': {'history': ['write t=DONE', f'write t={later.name}', 'read']},
+                              'observed': f'read_env reports {dict((k, (v.get("status").name, v.get("result"))) for k, v in gd.items())}',
+                              'expected': 't is not DONE after the second run; u carries the results of the second run'})
+        finally:
+            shutil.rmtree(root, ignore_errors=True)
     return {'name': 'persisted-environments-native', 'evaluations': n, 'distinct': n, 'failures': fails[:8], 'exhaustive': True,
             'bound': '6 sample environments (all statuses, nested / binary payloads, with and without output directories); write_env then read_env: intact, '
-                     'every byte prefix of every written file (one damaged file at a time), empty, missing, garbage and foreign pickles',
+                     'every byte prefix of every written file (one damaged file at a time), empty, missing, garbage and foreign pickles; two-run histories DONE -> FAILED / SKIPPED / WAITING',
             'samples': [{'env': 'one-done', 'damage': 'solo truncated at byte 17'}]}
 
 
